@@ -93,17 +93,9 @@ def visible_valid(valid: np.ndarray, r: int, c: int, dirs) -> bool:
     return False
 
 
-def body(ctx: Ctx, p: dict) -> None:
-    from pandora import validation
-
-    d, m = materialise(p)
-    H, W, off = p["H"], p["W"], p["off"]
-    method = p["method"]
-    ds = build.disparity_dataset(d, m, int(math.floor(p["lo"])), int(math.ceil(p["hi"])), off)
-    interp = validation.AbstractInterpolation(validation_method="cross_checking_accurate", interpolated_disparity=method)
-    interp.interpolated_disparity(ds)
-    gd = ds["disparity_map"].data
-    gm = ds["validity_mask"].data.astype(int)
+def judge(ctx: Ctx, method, d, m, gd, gm, off):
+    """predicate over one filling call: d/m before, gd/gm after.  Returns (n_must, n_unfillable, n_filled, valid map)"""
+    H, W = d.shape
     mi = m.astype(int)
     valid = (mi & INV) == 0
     flagged = (mi & (256 | 512)) != 0
@@ -125,18 +117,27 @@ def body(ctx: Ctx, p: dict) -> None:
                 continue
             ctx.judged += 1
             was = 256 if b & 256 else 512
-            rest_b = b & ~(256 | 512)
+            rest_b = b & ~(256 | 512 | 16 | 32)
             rest_a = a & ~(256 | 512 | 16 | 32)
-            if rest_a != rest_b:
+            if rest_a != rest_b or (a & b & 48) != (b & 48):
                 ctx.violation("C14/other-bits-changed", f"{method} pixel {(r, c)} mask {b}->{a}")
                 continue
             still = a & (256 | 512)
-            fill = a & (16 | 32)
+            prev_fill = b & 48
+            nb_ = mi[max(0, r - 1):r + 2, max(0, c - 1):c + 2]
+            sgm_exc = method == "sgm" and was == 512 and bool((nb_ & 256).any())  # mismatch touching an occlusion
+            allowed_new = 16 if was == 256 else (32 | (16 if sgm_exc else 0))
+            new_fill = (a & 48) & ~prev_fill
+            if new_fill & ~allowed_new:
+                ctx.violation("C14/flag-exchange-wrong", f"{method} pixel {(r, c)} mask {b}->{a}")
+                continue
+            # `fill` = the filled bit that stands for this call (it may have been there already after an earlier step)
+            fill = 0 if still else ((a & 48) & allowed_new)
             see_row = visible_valid(valid, r, c, [(0, -1), (0, 1)])
             see8 = visible_valid(valid, r, c, DIRS8)
             if not see8:
                 n_unfillable += 1
-            if still and fill or (not still and not fill) or still == 768 or fill == 48:
+            if (still and new_fill) or (not still and not fill) or still == 768:
                 ctx.violation("C14/flag-exchange-wrong", f"{method} pixel {(r, c)} mask {b}->{a}")
                 continue
             if still:
@@ -155,11 +156,9 @@ def body(ctx: Ctx, p: dict) -> None:
             n_filled += 1
             if (method == "mc-cnn" and was == 256 and see_row) or see8:
                 n_must += 1
-            ok_kind = (was == 256 and fill == 16) or (was == 512 and fill == 32)
+            ok_kind = (was == 256 and fill & 16) or (was == 512 and fill & 32) or (sgm_exc and fill & 16)
             if not ok_kind:
-                nb = mi[max(0, r - 1):r + 2, max(0, c - 1):c + 2]
-                if not (method == "sgm" and was == 512 and fill == 16 and (nb & 256).any()):
-                    ctx.violation("C14/flag-exchange-wrong", f"{method} pixel {(r, c)} mask {b}->{a}")
+                ctx.violation("C14/flag-exchange-wrong", f"{method} pixel {(r, c)} mask {b}->{a}")
             g = float(gd[r, c])
             if not any_valid:
                 ctx.violation("C14/filled-without-any-valid-pixel", f"{method} pixel {(r, c)} mask {b}->{a} disp {g}: "
@@ -167,7 +166,7 @@ def body(ctx: Ctx, p: dict) -> None:
                 continue
             if not math.isfinite(g):
                 sig = "C14/filled-non-finite-no-valid-in-sight" if not see8 else (
-                    "C14/sgm-occlusion-single-valid-neighbour-nan" if (method == "sgm" and fill == 16) else "C14/filled-non-finite")
+                    "C14/sgm-occlusion-single-valid-neighbour-nan" if (method == "sgm" and fill & 16) else "C14/filled-non-finite")
                 ctx.violation(sig, f"{method} pixel {(r, c)} mask {b}->{a} disp {g}")
                 continue
             if not (vmin <= g <= vmax):
@@ -187,6 +186,22 @@ def body(ctx: Ctx, p: dict) -> None:
                             break
                 if g != exp:
                     ctx.violation("C14/mc-cnn-occlusion-not-nearest-valid", f"pixel {(r, c)} got {g} expected {exp}")
+    return n_must, n_unfillable, n_filled, valid
+
+
+def body(ctx: Ctx, p: dict) -> None:
+    from pandora import validation
+
+    d, m = materialise(p)
+    H, W, off = p["H"], p["W"], p["off"]
+    method = p["method"]
+    ds = build.disparity_dataset(d, m, int(math.floor(p["lo"])), int(math.ceil(p["hi"])), off)
+    interp = validation.AbstractInterpolation(validation_method="cross_checking_accurate", interpolated_disparity=method)
+    interp.interpolated_disparity(ds)
+    gd = ds["disparity_map"].data
+    gm = ds["validity_mask"].data.astype(int)
+    n_must, n_unfillable, n_filled, valid = judge(ctx, method, d, m, gd, gm, off)
+    any_valid = bool(valid.any())
     classes = [method]
     if not any_valid:
         classes.append("no-valid-pixel-at-all")
@@ -197,6 +212,64 @@ def body(ctx: Ctx, p: dict) -> None:
     ctx.case(p, nontrivial=bool(n_must and n_unfillable), classes=classes)
 
 
+# ---------------------------------------------------------------------------------------------------------------
+# pipeline twin: the maps a real cross-checking step hands to the filler (left and right), same predicate
+# ---------------------------------------------------------------------------------------------------------------
+@st.composite
+def pipeline_cases(draw):
+    from .. import gen
+
+    pair = draw(gen.image_pair(min_rows=6, max_rows=12, min_cols=10, max_cols=24, max_val=9, masks=True))
+    steps = draw(gen.legal_pipeline(validation=False, max_post=2, windows=(1, 3, 3)))
+    steps.append(["validation", {"validation_method": "cross_checking_accurate",
+                                 "cross_checking_threshold": draw(st.sampled_from([0, 0.5, 1.0])),
+                                 "interpolated_disparity": draw(st.sampled_from(["mc-cnn", "sgm"]))}])
+    if draw(st.booleans()):
+        steps.append(["validation.2", {"validation_method": "cross_checking_accurate", "cross_checking_threshold": 0,
+                                       "interpolated_disparity": draw(st.sampled_from(["mc-cnn", "sgm"]))}])
+    a = draw(st.integers(-4, 2))
+    return {"pair": pair, "pipeline": steps, "disp": gen.clamp_interval([a, a + draw(st.integers(0, 4))], pair["W"], steps)}
+
+
+def pipeline_body(ctx: Ctx, p: dict) -> None:
+    from pandora import validation
+
+    from .. import drive, gen
+
+    kw = gen.pair_kwargs(p["pair"])
+    calls = []
+    saved = []
+    for cls in set(validation.AbstractInterpolation.interpolation_methods_avail.values()):
+        orig = cls.interpolated_disparity
+        saved.append((cls, orig))
+
+        def make(orig=orig):
+            def wrapper(self, left, *a, **k):
+                rec = {"d": left["disparity_map"].data.copy(), "m": left["validity_mask"].data.copy(),
+                       "off": int(left.attrs["offset_row_col"])}
+                res = orig(self, left, *a, **k)
+                rec["gd"] = left["disparity_map"].data.copy()
+                rec["gm"] = left["validity_mask"].data.astype(int)
+                rec["method"] = left.attrs.get("interpolated_disparity")
+                calls.append(rec)
+                return res
+
+            return wrapper
+
+        cls.interpolated_disparity = make()
+    try:
+        drive.run_pipeline(pipeline=gen.pipe_dict(p["pipeline"]), disp=tuple(p["disp"]), **kw)
+    finally:
+        for cls, orig in saved:
+            cls.interpolated_disparity = orig
+    tot = [0, 0, 0]
+    for rec in calls:
+        res = judge(ctx, rec["method"], rec["d"], rec["m"], rec["gd"], rec["gm"], rec["off"])
+        tot = [x + y for x, y in zip(tot, res[:3])]
+    ctx.case(p, nontrivial=bool(tot[2] and tot[0]), classes=[f"fill-calls={len(calls)}"] + (["unfillable"] if tot[1] else []))
+
+
 CHECKS = [
-    Check("direct", body, strategy=cases, budget={"quick": (16, 200), "thorough": (16, 8000)}),
+    Check("direct", body, strategy=cases, budget={"quick": (12, 200), "thorough": (16, 8000)}),
+    Check("pipeline", pipeline_body, strategy=pipeline_cases, budget={"quick": (4, 25), "thorough": (16, 500)}),
 ]
